@@ -78,3 +78,63 @@ def c12(tier, seed):
                     "trusted_base": ["TLC", "Rational.tla", "harness replayer comparison (1e-11 relative float vs rational)"]}
     res.assumptions = ["float results are compared with exact rationals to 1e-11 relative; threshold ties are don't-care"]
     return res
+
+
+def impl_to_spec(res, prop, spec, cfg, trace, name, nshards=10, env=None, keyfn=None, kind="events"):
+    """independent-event trace validation; each rejected event becomes (part of) a violation"""
+    v = validate_trace(spec, cfg, trace, nshards=nshards, env_extra=env, boundary=lambda e: True)
+    if not v["ok"]:
+        groups = {}
+        for rj in v["rejects"]:
+            ev = rj["event"] or {}
+            cls = keyfn(ev) if keyfn else str(ev.get("name", ev.get("ev", "event")))
+            groups.setdefault(cls, []).append(ev)
+        for cls, evs in groups.items():
+            res.violation(f"{name}-{cls}"[:80].replace("/", "_").replace(" ", "_"),
+                          {"kind": kind, "prop": prop, "event": evs[0], "count": len(evs), "spec": spec, "cfg": cfg},
+                          f"{len(evs)} rejected events of class {cls}: {json.dumps(evs[0])[:300]}", key=cls)
+    return v
+
+
+def replay_events(prop, payload):
+    """re-validate a single recorded event (the event carries its full input and the implementation's output;
+    to re-execute the implementation run the check again)"""
+    res = Result(prop, "quick", 0, "model_checking")
+    wd = workdir(prop + "_replay")
+    tr = os.path.join(wd, "event.ndjson")
+    with open(tr, "w") as f:
+        f.write(json.dumps(payload["event"]) + "\n")
+    v = impl_to_spec(res, prop, payload["spec"], payload["cfg"], tr, "replay", nshards=1)
+    res.coverage = {"states": 1, "transitions": 1, "traces_validated_against_impl": 1, "samples": [payload["event"]]}
+    return res
+
+
+def c16(tier, seed):
+    res = Result("C16", tier, seed, "model_checking")
+    wd = workdir("C16")
+    mc = run_mc("MC_Csc.tla", "MC_Csc.cfg", workers=4, timeout=900, coverage=False, name="MC_Csc")
+    tr = os.path.join(wd, "csc.ndjson")
+    mt = os.path.join(wd, "csc.meta.json")
+    run_vh(["csc", "--seed", seed, "--tier", tier, "--out", tr, "--meta", mt])
+    meta = json.load(open(mt))
+    v = impl_to_spec(res, "C16", "Trace_Csc.tla", "Trace_Csc.cfg", tr, "csc", nshards=12,
+                     keyfn=lambda e: ("panic:" if "panic" in e else "") + str(e.get("name")))
+    lines = read_ndjson(tr)
+    names = {}
+    distinct = set()
+    for e in lines:
+        names[e["name"]] = names.get(e["name"], 0) + 1
+        distinct.add(json.dumps(e, sort_keys=True))
+    res.coverage = {"states": mc["states"] + v["states"], "transitions": mc["transitions"] + v["transitions"],
+                    "traces_validated_against_impl": v["events"], "evaluations": v["events"],
+                    "distinct_nontrivial": len(distinct),
+                    "rule": "one evaluation = one call of a CscMatrix operation on the real type with its full input/output encodings, "
+                            "recomputed by TLC from Csc.tla; enumeration: all sparsity patterns of 11 shapes up to 3x3 and 4x3 under two "
+                            "value schemes (distinct integers; +-1/0 with cancellation and explicit zeros), all row masks / positions, "
+                            "gemv/symv for a,b in {-1,0,1,2}, all triplet sequences up to length 4-5 on 2x3 / 3x3 grids, all raw "
+                            "(m,n,colptr,rowval) encodings with m,n<=2 for check_format, block pairs; quick samples by seed, thorough is exhaustive; "
+                            "distinct = distinct event records",
+                    "per_operation": names, "recorder_meta": meta, "samples": sample(lines, 3),
+                    "mc_csc_states": mc["states"], "exhaustive": bool(meta.get("exhaustive"))}
+    res.assumptions = ["small-integer values: f64 arithmetic is exact, so equality with the integer semantics is exact"]
+    return res
